@@ -271,10 +271,20 @@ def dft_jobs(seed=0):
             add("vec_znx_idft", "h_idft", "fft64_vec_znx_idft", "fft64_vec_znx_idft__c", ["arithmetic/vec_znx_dft.c"], rs, as_, alias=1, extra_props=["C13"])
         add("vec_znx_idft_tmp_a", "h_idft_tmp_a", "fft64_vec_znx_idft_tmp_a", "fft64_vec_znx_idft_tmp_a__c", ["arithmetic/vec_znx_dft.c"], rs, as_)
         add("svp_apply_dft", "h_svp_apply", "fft64_svp_apply_dft_ref", "fft64_svp_apply_dft__c", ["arithmetic/scalar_vector_product.c"], rs, as_, strides=st)
-    # The NTT120 wrappers (ntt120_vec_znx_{dft,idft,idft_tmp_a}_avx; contracts and harnesses are in vec_dft.c) are NOT
-    # registered: the call-site precondition of the replaced q120_ntt_bb_avx2 / q120_intt_bb_avx2 contract fails
-    # spuriously (the table reached through the module's union member mod.q120 loses its n == nn constraint in CBMC 6.11;
-    # several formulations tried).  A false alarm of the machinery, so the jobs are withdrawn: not covered (DESIGN 5/C11).
+    # NTT120 wrappers: first withdrawn (is_fresh on members of the module's union lost the table's n == nn: spurious call-site
+    # failures), registered again once the module and its tables are objects built by the harness (contracts/vec_dft.c)
+    NTT_REPL = [("q120_b_from_znx64_simple", "q120_b_from_znx64_simple__c"), ("q120_ntt_bb_avx2", "q120_ntt_bb_avx2__c"),
+                ("q120_intt_bb_avx2", "q120_intt_bb_avx2__c"), ("q120_b_to_znx128_simple", "q120_b_to_znx128_simple__c")]
+    for n, (rs, as_) in enumerate(shapes):
+        st = STRIDES[(seed + n) % 3]
+        for nm, entry, fn, contract, strides in (("ntt120_vec_znx_dft", "h_ntt120_dft", "ntt120_vec_znx_dft_avx", "ntt120_vec_znx_dft__c", st),
+                                                 ("ntt120_vec_znx_idft", "h_ntt120_idft", "ntt120_vec_znx_idft_avx", "ntt120_vec_znx_idft__c", (1, 0)),
+                                                 ("ntt120_vec_znx_idft_tmp_a", "h_ntt120_idft_tmp_a", "ntt120_vec_znx_idft_tmp_a_avx", "ntt120_vec_znx_idft_tmp_a__c", (1, 0))):
+            add(nm, entry, fn, contract, ["arithmetic/vec_znx_dft.c"], rs, as_, strides=strides)
+            J[-1].replace = list(NTT_REPL)
+            if nm == "ntt120_vec_znx_idft" and rs and as_:
+                add(nm, entry, fn, contract, ["arithmetic/vec_znx_dft.c"], rs, as_, alias=1, extra_props=["C13"])
+                J[-1].replace = list(NTT_REPL)
     add("svp_prepare", "h_svp_prepare", "fft64_svp_prepare_ref", "fft64_svp_prepare__c", ["arithmetic/scalar_vector_product.c"], 1, 1)
     add("znx_small_single_product", "h_small_product", "fft64_znx_small_single_product", "fft64_znx_small_single_product__c", ["arithmetic/znx_small.c"], 1, 1)
     J.append(Job(name="dft.tmp_bytes_formulas", props=["C11"], shape="S2", sources=["arithmetic/znx_small.c", "arithmetic/vec_znx_dft.c", "arithmetic/vec_znx.c",
